@@ -138,7 +138,10 @@ type harness struct {
 	cancelAt     int
 	realMode     bool
 	budgetHit    string
-	curReq       string // extractor whose FileRequired is running
+	fsMu         sync.Mutex // serialises the simulated disk, the recorder and the budget counters
+	scanGoid     string     // the goroutine Scan runs on: only there may a budget signal be raised
+	bgCall       bool       // the current FS call is made by another goroutine
+	curReq       string     // extractor whose FileRequired is running
 	cancelOnSeen int
 	origPanic    string // first panic seen leaving an Extract call
 	origExt      string // the extractor it left
@@ -146,6 +149,13 @@ type harness struct {
 	origFault    bool   // it was a memory fault (runtime error with an address)
 	progress     string // child mode: file in which the extractor being run is noted
 	after        func(ext, path string)
+}
+
+// note records an Extract boundary in the history.
+func (h *harness) note(p, ext, what string) {
+	h.fsMu.Lock()
+	defer h.fsMu.Unlock()
+	h.rec.Add("extract", p, ext, what)
 }
 
 type wrapped struct {
@@ -180,7 +190,7 @@ func (w *wrapped) Extract(ctx context.Context, input *filesystem.ScanInput) (inv
 	if h.progress != "" {
 		os.WriteFile(h.progress, []byte(er.Ext), 0o644)
 	}
-	h.rec.Add("extract", input.Path, er.Ext, "begin")
+	h.note(input.Path, er.Ext, "begin")
 	h.cur = er
 	var m0, m1 runtime.MemStats
 	runtime.ReadMemStats(&m0)
@@ -207,7 +217,7 @@ func (w *wrapped) Extract(ctx context.Context, input *filesystem.ScanInput) (inv
 		}
 		res = "err"
 	}
-	h.rec.Add("extract", input.Path, er.Ext, fmt.Sprintf("end %s pkgs=%d", res, er.NPkgs))
+	h.note(input.Path, er.Ext, fmt.Sprintf("end %s pkgs=%d", res, er.NPkgs))
 	if h.after != nil {
 		h.after(er.Ext, input.Path)
 	}
@@ -410,7 +420,7 @@ func runScan(spec *RunSpec, corrupt bool, sb *sandbox, after func(ext, p string)
 	} else {
 		plan := spec.Disk
 		sfs = scan.NewSimFS(root, rec, &plan, "")
-		cfg.ScanRoots = []*scalibrfs.ScanRoot{{FS: sfs, Path: ""}}
+		cfg.ScanRoots = []*scalibrfs.ScanRoot{{FS: lockedFS{sfs, &h.fsMu, h}, Path: ""}}
 	}
 	ctx, cancel := context.WithCancel(context.Background())
 	defer cancel()
@@ -427,6 +437,10 @@ func runScan(spec *RunSpec, corrupt bool, sb *sandbox, after func(ext, p string)
 				obs.CancelOnFired = true
 			}
 		}
+		if h.bgCall {
+			e.Arg += bgMark
+			return
+		}
 		cur := h.cur
 		if cur == nil {
 			return
@@ -439,13 +453,17 @@ func runScan(spec *RunSpec, corrupt bool, sb *sandbox, after func(ext, p string)
 			}
 			if cur.Opens > h.openLimit {
 				h.budgetHit = "open-budget:" + cur.Ext
-				panic(budgetExceeded{"open-budget", cur.Ext})
+				if goid() == h.scanGoid {
+					panic(budgetExceeded{"open-budget", cur.Ext})
+				}
 			}
 		case "read", "readat":
 			cur.Reads++
 			if cur.Reads > h.readLimit {
 				h.budgetHit = "read-budget:" + cur.Ext
-				panic(budgetExceeded{"read-budget", cur.Ext})
+				if goid() == h.scanGoid {
+					panic(budgetExceeded{"read-budget", cur.Ext})
+				}
 			}
 		}
 	}
@@ -490,6 +508,7 @@ func runScan(spec *RunSpec, corrupt bool, sb *sandbox, after func(ext, p string)
 		// a truncated file is a fatal, unrecoverable runtime error in production.  To observe
 		// it instead of losing the worker, faults on this goroutine are turned into panics.
 		debug.SetPanicOnFault(true)
+		h.scanGoid = goid()
 		res = scalibr.New().Scan(ctx, cfg)
 	}()
 	// Watchdog: 20 s of wall clock, or runaway memory (a parser recursing without bound would
@@ -523,7 +542,9 @@ wait:
 			return &Obs{Hang: true, HangKind: "watchdog", HangExt: ext, Enabled: obs.Enabled, TreeBytes: total}, nil
 		}
 	}
-	obs.HistFP = rec.Fingerprint()
+	h.fsMu.Lock()
+	obs.HistFP = historyFP(rec.Events)
+	h.fsMu.Unlock()
 	obs.Events = len(rec.Events)
 	if sfs != nil {
 		obs.Fired = sfs.Fired
